@@ -124,6 +124,7 @@ class Ctx:
                 'samples': self.samples or [dict(rule=x['id'], site=x.get('site', ''), verdict=x['verdict']) for x in decided[:5]],
                 'counters': self.counters,
                 'controls': self.extra.get('controls', {}),
+                'release_twin': self.extra.get('release_twin'),
                 'facts': self.extra.get('facts', {}),
                 'cone_depth': self.S.depth if self.S else None,
             },
